@@ -32,7 +32,8 @@ var codecValues = []string{`null`, `true`, `false`, `0`, `-1.5e3`, `12`, `"s"`, 
 	`{"rid":"x.y"}`, `{"rid":"x.y","soft":true}`, `{"rid":"x.y","soft":false}`, `{"action":"delete"}`, `{"data":1}`, `{"data":{"a":1}}`, `{"data":[1]}`, `{"data":null}`, `{"data":"s"}`,
 	`{"rid":""}`, `{"rid":"a..b"}`, `{"rid":"x","action":"delete"}`, `{"rid":"x","data":1}`, `{"action":"remove"}`, `{"action":"delete","data":1}`, `{"foo":"bar"}`, `{"rid":5}`,
 	`{"rid":"x.y","extra":1}`, `{"action":"delete","extra":[1]}`, `{"data":{"a":1},"z":2}`, `{"soft":true}`, `{"rid":"x.y","soft":"yes"}`, `{"rid":"x?q=1"}`, `{"rid":"x.*"}`, `{"data":true,"soft":true}`,
-	`{"rid":"a..b","soft":true}`, `{"rid":"x.*","soft":true}`, `{"rid":"x y","soft":true}`, `{"rid":"","soft":true}`, `{"rid":"x?q=1","soft":true}`, `{"rid":"x..y","soft":false}`, `{"rid":"å","soft":true}`}
+	`{"rid":"a..b","soft":true}`, `{"rid":"x.*","soft":true}`, `{"rid":"x y","soft":true}`, `{"rid":"","soft":true}`, `{"rid":"x?q=1","soft":true}`, `{"rid":"x..y","soft":false}`, `{"rid":"å","soft":true}`,
+	"{\"rid\":\"x.a\x7fb\"}", "{\"rid\":\"x.a\x7fb\",\"soft\":true}", `{"rid":"x.a~b"}`, `{"rid":"x.a!b"}`, `{"action":"remove","data":{"foo":42}}`, `{"data":null,"action":"update"}`, `{"action":"update","data":1}`, `{"data":{"foo":42}}`}
 
 func wsVariant(r *gen.R, s string) string {
 	// surrounding whitespace and whitespace after separators (outside of strings only at the ends and after , and :)
@@ -88,13 +89,14 @@ func (codecDom) Gen(r *gen.R, tier string, emit func(string)) {
 		case 4:
 			emit(wire.Line("eq", wsVariant(r, r.Pick(codecValues)), wsVariant(r, r.Pick(codecValues))))
 		default:
+			op := r.Pick([]string{"svc", "svc", "svcm"})
 			switch r.Intn(3) {
 			case 0:
-				emit(wire.Line("svc", "result", r.Pick(codecValues), "-"))
+				emit(wire.Line(op, "result", r.Pick(codecValues), "-"))
 			case 1:
-				emit(wire.Line("svc", "resource", r.Pick([]string{"x.y", "svc.a.b", "a?q=1"}), "-"))
+				emit(wire.Line(op, "resource", r.Pick([]string{"x.y", "svc.a.b", "a?q=1"}), "-"))
 			default:
-				emit(wire.Line("svc", "error", r.Pick([]string{"system.notFound", "custom.code", "x"}), r.Pick([]string{"Not found", "m", ""})))
+				emit(wire.Line(op, "error", r.Pick([]string{"system.notFound", "custom.code", "x"}), r.Pick([]string{"Not found", "m", ""})))
 			}
 		}
 	}
@@ -248,15 +250,19 @@ func (codecDom) Exec(a []string) string {
 			return wire.Bool(v.Equal(w))
 		case "resp":
 			return renderResp(resprot.ParseResponse([]byte(a[1])))
-		case "svc":
+		case "svc", "svcm":
 			var text string
+			tail := "}"
+			if a[0] == "svcm" {
+				tail = `,"meta":{"status":404,"header":{"X-A":["1"]}}}`
+			}
 			switch a[1] {
 			case "result":
-				text = `{"result":` + a[2] + `}`
+				text = `{"result":` + a[2] + tail
 			case "resource":
-				text = `{"resource":{"rid":"` + a[2] + `"}}`
+				text = `{"resource":{"rid":"` + a[2] + `"}` + tail
 			default:
-				text = `{"error":{"code":"` + a[2] + `","message":"` + a[3] + `"}}`
+				text = `{"error":{"code":"` + a[2] + `","message":"` + a[3] + `"}` + tail
 			}
 			return renderResp(resprot.ParseResponse([]byte(text)))
 		}
